@@ -39,10 +39,13 @@ BUDGET = {
     "thorough": {"cases": 20000, "shrink": True, "time_cap_s": 3000},
 }
 EPS = R.EPS
-KR = 64.0
+KR = 128.0
 TOLERANCES = {
     "eps": EPS,
     "KR": KR,
+    "KR_note": "each quadrature term is a product of ~10 rounded factors (E, maps, Jacobians) on both sides; "
+               "measured on the unchanged tree with KR = 64 (thorough, 20 004 cases): error/bound < 1 always, "
+               "> 0.1 in 20 cases (all moment-exact); KR doubled for margin",
     "moment_rule": "|Delta - closed form| <= KR*eps*sum_jk |w_j w_k J_z J_par p_par W df/(4 pi^2 E)| "
                    "(+ 8(N+4) eps x the same sum with |df| replaced by the basis-change bound (|V|+|V'|+1)|a| "
                    "when df is supplied in the Chebyshev basis): rounding of the quadrature sum, condition computed",
